@@ -229,7 +229,13 @@ fn cmd_gen(args: &[String]) {
                 std::process::exit(2);
             }
         };
-        let orc = oracle::run(&src, &case.opts.validate);
+        let orc = match catch_unwind(AssertUnwindSafe(|| oracle::run(&src, &case.opts.validate))) {
+            Ok(o) => o,
+            Err(p) => oracle::Oracle {
+                json: json!({"parse": {"ok": false, "msg": format!("oracle panicked: {}", panic_msg(p))}, "oracle_panic": true}),
+                module: None,
+            },
+        };
         let mut ev = Map::new();
         ev.insert("ev".into(), json!("case"));
         ev.insert("id".into(), json!(case.id));
